@@ -127,8 +127,10 @@ theorem request_match_case_and_trailing_dot (rs : List SrcRule) (fb : Nat) (P : 
 
 /-- `RequestSelect`: the decoded decision. `reject`/`asis` are the bytes `0xFC`/`0xFD`; any other
 byte is an upstream index, which the builder took from the defined upstreams (`< nUp`). -/
-def decodeReq (o : Nat) : ReqSel :=
-  if o == 0xFC then .reject else if o == 0xFD then .to .asis else .to (.up o)
+def decodeReq (dead : List Nat) (o : Nat) : ReqSel :=
+  if o == 0xFC then .reject else if o == 0xFD then .to .asis
+  else if dead.contains o then .err .upstreamInit   -- `GetUpstream` fails: the question is not sent anywhere
+  else .to (.up o)
 
 theorem firstMatchSrc_mem (env : Env) (rs : List SrcRule) (fb : Nat) :
     firstMatchSrc env rs fb = fb ∨ ∃ r ∈ rs, firstMatchSrc env rs fb = r.out := by
@@ -140,7 +142,7 @@ theorem request_select_is_first_match (cfg : Cfg) (rs : List SrcRule) (fb : Nat)
     (hc : compileRequest rs fb = some cfg.req)
     (hup : ∀ o, (o = fb ∨ ∃ r ∈ rs, o = r.out) → o < cfg.nUp ∨ o = 0xFC ∨ o = 0xFD)
     (hn : cfg.nUp ≤ 0xFC) :
-    requestSelect cfg q = decodeReq (firstMatchSrc (reqEnv q) (splitRequestRules rs) fb) := by
+    requestSelect cfg q = decodeReq cfg.dead (firstMatchSrc (reqEnv q) (splitRequestRules rs) fb) := by
   have hw : OutsOK rs fb := by
     constructor
     · intro r hr; rcases hup r.out (Or.inr ⟨r, hr, rfl⟩) with h | h | h <;> omega
@@ -236,15 +238,17 @@ theorem response_match_empty_name (P : Prog) (env : Env) (hn : env.name = []) :
     responseMatch P env = .emptyName := by
   simp [responseMatch, hn]
 
-def decodeResp (o : Nat) : RespSel :=
-  if o == 0xFC then .accept else if o == 0xFD then .reject else .next o
+def decodeResp (dead : List Nat) (o : Nat) : RespSel :=
+  if o == 0xFC then .accept else if o == 0xFD then .reject
+  else if dead.contains o then .err .upstreamInit
+  else .next o
 
 theorem response_select_is_first_match (cfg : Cfg) (rs : List SrcRule) (fb : Nat) (r : Resp) (u : UpRef)
     (q : Question) (hq : r.q = some q) (hname : q.name ≠ []) (hresp : r.isResponse = true)
     (hc : compile rs fb = some cfg.resp)
     (hup : ∀ o, (o = fb ∨ ∃ x ∈ rs, o = x.out) → o < cfg.nUp ∨ o = 0xFC ∨ o = 0xFD)
     (hn : cfg.nUp ≤ 0xFC) :
-    responseSelect cfg r u = decodeResp (firstMatchSrc (respEnv r u) rs fb) := by
+    responseSelect cfg r u = decodeResp cfg.dead (firstMatchSrc (respEnv r u) rs fb) := by
   have hw : OutsOK rs fb := by
     constructor
     · intro x hx; rcases hup x.out (Or.inr ⟨x, hx, rfl⟩) with h | h | h <;> omega
@@ -290,11 +294,11 @@ theorem reject_beats_cache (cfg : Cfg) (cache : Cache) (dst : Nat) (q? : Option 
     let o := handle cfg cache dst false q? ans
     o.reply = .rejected ∧ o.trace = [] ∧
     ((∀ c ∈ canonName q.name, (c != '|') = true) →
-        ∀ sc, o.cache.lookup ⟨canonName q.name, q.qtype, sc⟩ = none) ∧
-    (∀ k : CacheKey, baseKeyOf k ≠ canonName q.name ++ natDigits q.qtype → o.cache.lookup k = cache.lookup k) := by
+        ∀ sc, o.cache.lookup ⟨canonName q.name, q.qtype, sc, q.qclass⟩ = none) ∧
+    (∀ k : CacheKey, baseKeyOf k ≠ canonName q.name ++ (natDigits q.qtype ++ clsSuffix q.qclass) → o.cache.lookup k = cache.lookup k) := by
   simp only [handle, h, Bool.false_eq_true, if_false]
-  exact ⟨trivial, trivial, fun hn sc => lookup_removeFamily_same cache _ _ sc hn,
-    fun k hk => lookup_removeFamily_other cache _ _ k hk⟩
+  exact ⟨trivial, trivial, fun hn sc => lookup_removeFamily_same cache _ _ sc _ hn,
+    fun k hk => lookup_removeFamily_other cache _ _ _ k hk⟩
 
 /-- Code as it is (observation, see design note): for a name that contains `|` (legal on the wire)
 `dnsCacheBaseKey` cuts the cache key inside the name, so the reject path — which still answers empty
@@ -302,24 +306,24 @@ and asks nobody — does NOT remove the question's own cached answers. -/
 theorem reject_keeps_cache_of_names_with_bar (cfg : Cfg) (cache : Cache) (dst : Nat) (q : Question)
     (ans : Upstreams) (h : requestSelect cfg q = .reject)
     (hbar : ∃ c ∈ canonName q.name, (c != '|') = false) (sc : Scope) :
-    (handle cfg cache dst false (some q) ans).cache.lookup ⟨canonName q.name, q.qtype, sc⟩ =
-      cache.lookup ⟨canonName q.name, q.qtype, sc⟩ := by
-  have := (reject_beats_cache cfg cache dst (some q) ans h).2.2.2 ⟨canonName q.name, q.qtype, sc⟩
-    (baseKeyOf_bar _ _ sc hbar)
+    (handle cfg cache dst false (some q) ans).cache.lookup ⟨canonName q.name, q.qtype, sc, q.qclass⟩ =
+      cache.lookup ⟨canonName q.name, q.qtype, sc, q.qclass⟩ := by
+  have := (reject_beats_cache cfg cache dst (some q) ans h).2.2.2 ⟨canonName q.name, q.qtype, sc, q.qclass⟩
+    (baseKeyOf_bar _ _ sc _ hbar)
   exact this
 
 -- non-vacuity: the cache holds two answers for the rejected question (two scopes) and one for
 -- another name; the question is rejected, both are gone, the other stays.
 example : requestSelect Ex.cfgRejectAll Ex.qCached = .reject ∧
-    Ex.cacheWithAnswer.lookup ⟨canonName Ex.qCached.name, 1, .asis 1⟩ = some [.a 0x01020304] ∧
-    Ex.cacheWithAnswer.lookup ⟨canonName Ex.qCached.name, 1, .up 0⟩ = some [.a 0x05060708] := by decide
+    Ex.cacheWithAnswer.lookup ⟨canonName Ex.qCached.name, 1, .asis 1, 1⟩ = some [.a 0x01020304] ∧
+    Ex.cacheWithAnswer.lookup ⟨canonName Ex.qCached.name, 1, .up 0, 1⟩ = some [.a 0x05060708] := by decide
 example : (handle Ex.cfgRejectAll Ex.cacheWithAnswer 1 false (some Ex.qCached) (fun _ _ => none)).cache =
-    [(⟨"other.test.".toList, 1, .asis 1⟩, [.a 0x09090909])] := by decide
+    [(⟨"other.test.".toList, 1, .asis 1, 1⟩, [.a 0x09090909])] := by decide
 
 /-- A cached answer is served only for questions that are not rejected, without asking anybody. -/
 theorem cache_hit_asks_nobody (cfg : Cfg) (cache : Cache) (dst : Nat) (q : Question) (ans : Upstreams)
     (u : UpRef) (recs : List Rec) (h : requestSelect cfg q = .to u)
-    (hhit : cache.lookup ⟨canonName q.name, q.qtype, scopeOf dst u⟩ = some recs) :
+    (hhit : cache.lookup ⟨canonName q.name, q.qtype, scopeOf dst u, q.qclass⟩ = some recs) :
     let o := handle cfg cache dst false (some q) ans
     o.reply = .answers recs true ∧ o.trace = [] ∧ o.cache = cache := by
   simp [handle, h, hhit]
@@ -330,7 +334,7 @@ theorem cache_hit_asks_nobody (cfg : Cfg) (cache : Cache) (dst : Nat) (q : Quest
 upstream queries are exactly those of `dialSend` started there. -/
 theorem question_goes_to_selected_upstream (cfg : Cfg) (cache : Cache) (dst : Nat) (q : Question)
     (ans : Upstreams) (u : UpRef) (h : requestSelect cfg q = .to u)
-    (hmiss : cache.lookup ⟨canonName q.name, q.qtype, scopeOf dst u⟩ = none) (hpos : 0 < cfg.maxDepth) :
+    (hmiss : cache.lookup ⟨canonName q.name, q.qtype, scopeOf dst u, q.qclass⟩ = none) (hpos : 0 < cfg.maxDepth) :
     (handle cfg cache dst false (some q) ans).trace = (dialSend cfg (some q) ans 0 u).1 ∧
     (dialSend cfg (some q) ans 0 u).1.head? = some u := by
   constructor
@@ -384,11 +388,11 @@ theorem reject_empties_answer_section_only (cfg : Cfg) (q? : Option Question) (a
 the ORIGINAL request route (also when another upstream finally answered, also when emptied). -/
 theorem final_answer_is_relayed_and_cached (cfg : Cfg) (cache : Cache) (dst : Nat) (q : Question)
     (ans : Upstreams) (u : UpRef) (t : List UpRef) (r : Resp) (h : requestSelect cfg q = .to u)
-    (hmiss : cache.lookup ⟨canonName q.name, q.qtype, scopeOf dst u⟩ = none)
+    (hmiss : cache.lookup ⟨canonName q.name, q.qtype, scopeOf dst u, q.qclass⟩ = none)
     (hd : dialSend cfg (some q) ans 0 u = (t, .ok r)) :
     let o := handle cfg cache dst false (some q) ans
     o.reply = .answers r.recs r.rcodeOk ∧
-    (r.cacheable = true → o.cache.lookup ⟨canonName q.name, q.qtype, scopeOf dst u⟩ = some r.recs) ∧
+    (r.cacheable = true → o.cache.lookup ⟨canonName q.name, q.qtype, scopeOf dst u, q.qclass⟩ = some r.recs) ∧
     (r.cacheable = false → o.cache = cache) := by
   simp only [handle, Option.getD_some, h, hmiss, hd, Bool.false_eq_true, if_false]
   refine ⟨trivial, ?_, ?_⟩
@@ -407,14 +411,14 @@ theorem question_follows_first_matching_request_rule (cfg : Cfg) (rs : List SrcR
     (hc : compileRequest rs fb = some cfg.req)
     (hup : ∀ o, (o = fb ∨ ∃ r ∈ rs, o = r.out) → o < cfg.nUp ∨ o = 0xFC ∨ o = 0xFD)
     (hn : cfg.nUp ≤ 0xFC) (hpos : 0 < cfg.maxDepth) :
-    let d := decodeReq (firstMatchSrc (reqEnv q) (splitRequestRules rs) fb)
+    let d := decodeReq cfg.dead (firstMatchSrc (reqEnv q) (splitRequestRules rs) fb)
     let o := handle cfg cache dst false (some q) ans
     (d = .reject → o.reply = .rejected ∧ o.trace = [] ∧
         ((∀ c ∈ canonName q.name, (c != '|') = true) →
-          ∀ sc, o.cache.lookup ⟨canonName q.name, q.qtype, sc⟩ = none)) ∧
-    (∀ u, d = .to u → cache.lookup ⟨canonName q.name, q.qtype, scopeOf dst u⟩ = none →
+          ∀ sc, o.cache.lookup ⟨canonName q.name, q.qtype, sc, q.qclass⟩ = none)) ∧
+    (∀ u, d = .to u → cache.lookup ⟨canonName q.name, q.qtype, scopeOf dst u, q.qclass⟩ = none →
         o.trace.head? = some u) ∧
-    (∀ u recs, d = .to u → cache.lookup ⟨canonName q.name, q.qtype, scopeOf dst u⟩ = some recs →
+    (∀ u recs, d = .to u → cache.lookup ⟨canonName q.name, q.qtype, scopeOf dst u, q.qclass⟩ = some recs →
         o.trace = [] ∧ o.reply = .answers recs true) := by
   have hsel := request_select_is_first_match cfg rs fb q hc hup hn
   refine ⟨?_, ?_, ?_⟩
@@ -439,7 +443,7 @@ theorem answer_follows_first_matching_response_rule (cfg : Cfg) (rs : List SrcRu
     (hc : compile rs fb = some cfg.resp)
     (hup : ∀ o, (o = fb ∨ ∃ x ∈ rs, o = x.out) → o < cfg.nUp ∨ o = 0xFC ∨ o = 0xFD)
     (hn : cfg.nUp ≤ 0xFC) :
-    let dec := decodeResp (firstMatchSrc (respEnv r u) rs fb)
+    let dec := decodeResp cfg.dead (firstMatchSrc (respEnv r u) rs fb)
     (dec = .accept → dialSend cfg q? ans d u = ([u], .ok r)) ∧
     (dec = .reject → dialSend cfg q? ans d u = ([u], .ok { r with recs := [] })) ∧
     (∀ k, dec = .next k → dialSend cfg q? ans d u =
@@ -448,6 +452,72 @@ theorem answer_follows_first_matching_response_rule (cfg : Cfg) (rs : List SrcRu
   have hact := response_action cfg q? ans d u hd
   exact ⟨fun h => hact.2.2.1 r h0 ha (hsel.trans h), fun h => hact.2.2.2.1 r h0 ha (hsel.trans h),
     fun k h => hact.2.2.2.2.1 r k h0 ha (hsel.trans h)⟩
+
+/-! ## Question classes (fix 4150de7) -/
+
+/-- Request routing does not look at the class: a CH or ANY question is routed like the IN one. -/
+theorem class_does_not_route (cfg : Cfg) (q : Question) (c : Nat) :
+    requestSelect cfg { q with qclass := c } = requestSelect cfg q := rfl
+
+/-- **A question of a class other than IN is never answered from, and never stored in, the response
+cache of class IN**: its cache key carries the class, and whatever the upstreams answer to it is relayed
+but not stored (also when a response rule empties or re-asks it). -/
+theorem non_in_question_is_never_cached (cfg : Cfg) (cache : Cache) (dst : Nat) (q : Question) (ans : Upstreams)
+    (u : UpRef) (hcls : q.qclass ≠ 1) (h : requestSelect cfg q = .to u)
+    (hmiss : cache.lookup ⟨canonName q.name, q.qtype, scopeOf dst u, q.qclass⟩ = none) :
+    (handle cfg cache dst false (some q) ans).cache = cache := by
+  simp only [handle, Option.getD_some, h, hmiss, Bool.false_eq_true, if_false]
+  cases hd : dialSend cfg (some q) ans 0 u with
+  | mk t res =>
+    cases res with
+    | error e => rfl
+    | ok r =>
+      have ha := dialSend_ok_answers cfg (some q) ans cfg.maxDepth 0 u r rfl (by rw [hd])
+      have hnc : r.cacheable = false := by
+        unfold answersQuestion at ha
+        unfold Resp.cacheable
+        cases hq : r.q with
+        | none => simp
+        | some rq =>
+          simp only [hq, Bool.and_eq_true, beq_iff_eq] at ha
+          have : (rq.qclass == 1) = false := by
+            rw [beq_eq_false_iff_ne, ha.1.2]; exact hcls
+          simp [this]
+      simp [hnc]
+
+/-- ... and the IN entry for the same name and type is a different key: it is not what a CH question
+is looked up under. -/
+theorem class_is_part_of_the_cache_key (n : List Char) (t : Nat) (sc : Scope) (c : Nat) (hc : c ≠ 1) :
+    (⟨n, t, sc, c⟩ : CacheKey) ≠ ⟨n, t, sc, 1⟩ := by
+  intro h; injection h with _ _ _ h4; exact hc h4
+
+/-! ## Optimistic cache: who is asked by the refresh of a stale entry -/
+
+/-- With `optimistic_cache` on, a hit of a stale entry is answered from the cache, and the background
+refresh asks exactly what a fresh resolution would ask: `dialSend` from depth 0 at the upstream the
+first matching request rule selected.  (One-step unfolding of the skeleton `handleOpt`; the tie
+carries it.) -/
+theorem stale_hit_refreshes_from_routed_upstream (cfg : Cfg) (cache : Cache) (stale : List CacheKey)
+    (dst : Nat) (q : Question) (ans : Upstreams) (u : UpRef) (recs : List Rec)
+    (h : requestSelect cfg q = .to u)
+    (hhit : cache.lookup ⟨canonName q.name, q.qtype, scopeOf dst u, q.qclass⟩ = some recs)
+    (hst : stale.contains ⟨canonName q.name, q.qtype, scopeOf dst u, q.qclass⟩ = true) :
+    let o := handleOpt cfg cache stale dst false (some q) ans
+    o.reply = .answers recs true ∧ o.trace = (dialSend cfg (some q) ans 0 u).1 := by
+  simp only [handleOpt, Option.getD_some, h, hhit, hst, Bool.false_eq_true, if_false, Option.isSome_some,
+    Bool.and_self, if_true]
+  cases hd : dialSend cfg (some q) ans 0 u with
+  | mk t res =>
+    cases res with
+    | error e => exact ⟨rfl, rfl⟩
+    | ok r => simp only []; split <;> exact ⟨rfl, rfl⟩
+
+/-- Reject is decided before any cache is consulted, stale entries included. -/
+theorem reject_beats_stale_cache (cfg : Cfg) (cache : Cache) (stale : List CacheKey) (dst : Nat)
+    (q? : Option Question) (ans : Upstreams) (h : requestSelect cfg (q?.getD noQuestion) = .reject) :
+    let o := handleOpt cfg cache stale dst false q? ans
+    o.reply = .rejected ∧ o.trace = [] := by
+  simp [handleOpt, h]
 
 /-! ## Clause 4 — the number of re-asks is bounded -/
 
@@ -471,10 +541,42 @@ theorem reask_bounded (cfg : Cfg) (cache : Cache) (dst : Nat) (isResp : Bool) (q
     | reject => simp
     | to u =>
       simp only
-      cases cache.lookup ⟨canonName q.name, q.qtype, scopeOf dst u⟩ with
+      cases cache.lookup ⟨canonName q.name, q.qtype, scopeOf dst u, q.qclass⟩ with
       | some recs => simp
       | none =>
         have := hb u
+        cases hd : dialSend cfg q? ans 0 u with
+        | mk t r => rw [hd] at this; cases r <;> simpa using this
+
+/-- the same bound with `optimistic_cache` on (a background refresh is one `dialSend` too) -/
+theorem reask_bounded_optimistic (cfg : Cfg) (cache : Cache) (stale : List CacheKey) (dst : Nat) (isResp : Bool)
+    (q? : Option Question) (ans : Upstreams) :
+    (handleOpt cfg cache stale dst isResp q? ans).trace.length ≤ cfg.maxDepth := by
+  have hb : ∀ u, (dialSend cfg q? ans 0 u).1.length ≤ cfg.maxDepth :=
+    fun u => dialSend_trace_le cfg q? ans cfg.maxDepth 0 u rfl
+  cases isResp with
+  | true => simp [handleOpt]
+  | false =>
+    simp only [handleOpt, Bool.false_eq_true, if_false]
+    generalize q?.getD noQuestion = q
+    cases requestSelect cfg q with
+    | err e => simp
+    | reject => simp
+    | to u =>
+      simp only
+      have := hb u
+      cases cache.lookup ⟨canonName q.name, q.qtype, scopeOf dst u, q.qclass⟩ with
+      | some recs =>
+        simp only
+        split
+        · cases hd : dialSend cfg q? ans 0 u with
+          | mk t r =>
+            rw [hd] at this
+            cases r with
+            | error e => simpa using this
+            | ok r => simp only []; split <;> simpa using this
+        · simp
+      | none =>
         cases hd : dialSend cfg q? ans 0 u with
         | mk t r => rw [hd] at this; cases r <;> simpa using this
 
@@ -521,7 +623,7 @@ example : ∀ (d : Nat) (v : UpRef), ∃ r k, (fun _ _ => some Ex.respLoop : Ups
     · by_cases h1 : k = 1
       · subst h1; decide
       · simp [decodeResp, firstMatchSrc, Ex.bounceRules, SrcRule.holds, Func.holds, Func.anyParam, Func.neg, respEnv,
-          Ex.respLoop, UpRef.index, h, h1]
+          Ex.respLoop, UpRef.index, h, h1, Ex.bounceCfg]
 
 /-- A message with the response bit is never routed, forwarded or cached. -/
 theorem response_bit_refused (cfg : Cfg) (cache : Cache) (dst : Nat) (q? : Option Question) (ans : Upstreams) :
